@@ -29,6 +29,9 @@ def base_spec(vals):
          "neg": [rq(C("sid", 0x7F), MR("rsid"), NRC("nrc", [0x11, 0x31]))]},
         {"name": "session", "request": rq(C("sid", 0x10), V("kind", default=vals["dflt"])),
          "pos": [rq(C("sid", 0x50), V("kind"), C("p2", vals["p2"], 16))]},
+        # a request without constant prefix (it starts with a value)
+        {"name": "raw", "request": rq(V("first"), C("mid", 0x99)), "pos": [rq(C("sid", 0x40), V("r"))]},
+        # (last: the catalogue builder numbers its ids consecutively, so deleting it shifts no id)
         {"name": "reset", "request": rq(C("sid", 0x11), C("sub", 0x01)),
          "pos": [rq(C("sid", 0x51), C("sub", 0x01))]},
     ], "gnr": []}
@@ -59,6 +62,12 @@ def _edit_structural(spec, kind):
     if kind == "rename-service":
         sv["reset"]["name"] = "ecu_reset"
         return "ecu_reset", "renamed"
+    if kind == "rename-service-without-prefix":
+        sv["raw"]["name"] = "raw_renamed"
+        return "raw_renamed", "renamed"
+    if kind == "nrc-data-type":
+        sv["read"]["neg"][0]["params"][2]["type"] = {"dt": "A_INT32", "bl": 8}
+        return "read", ("negative response parameter 'nrc'", "Data type")
     if kind == "bit-length":
         sv["session"]["pos"][0]["params"][1]["dop"] = {"dt": "A_UINT32", "bl": 16}
         return "session", ("positive response parameter 'kind'", "Bit Length")
@@ -89,7 +98,8 @@ def _edit_structural(spec, kind):
     raise KeyError(kind)
 
 
-STRUCTURAL = ["add-service", "delete-service", "rename-service", "bit-length", "const-bit-length",
+STRUCTURAL = ["add-service", "delete-service", "rename-service", "rename-service-without-prefix",
+              "nrc-data-type", "bit-length", "const-bit-length",
               "data-type", "linked-dop", "semantic", "negative-response-values", "default-value",
               "byte-position-removed", "byte-position-added"]
 
@@ -174,11 +184,16 @@ def run_numeric(sx, cfg, env):
         props = [p.strip() for t in tables for p in t["Property"]]
         sx.observe("properties", props)
         sx.require(props == [prop], "exactly-the-edited-attribute-is-reported")
-        if props == [prop] and prop in ("Byte position",):
+        if props == [prop]:
+            # the first argument of the comparison is the NEW layer, the second the OLD one
             t = tables[0]
-            sx.require(s_and(t["Old Value"][0] == new_vals[key], t["New Value"][0] == old_vals[key]) or
-                       s_and(t["Old Value"][0] == old_vals[key], t["New Value"][0] == new_vals[key]),
-                       "old-and-new-value-are-the-two-values")
+            ov, nv = t["Old Value"][0], t["New Value"][0]
+            if prop == "Value":
+                # rendered as hexadecimal text; symbolic numbers print as a placeholder
+                ov, nv = [(int(x, 16) if "<" not in x else None) for x in (ov, nv)]
+            if ov is not None and nv is not None:
+                sx.require(s_and(ov == old_vals[key], nv == new_vals[key]),
+                           "old-and-new-value-are-reported-as-such")
 
 
 def run_structural(sx, cfg, env):
@@ -195,7 +210,8 @@ def run_structural(sx, cfg, env):
     elif kind == "renamed":
         _require_only(sx, rep, renamed=[svc])
         if _names(rep["changed_name_of_service"][0]) == [svc]:
-            sx.require(list(rep["changed_name_of_service"][1]) == ["reset"], "old-name-is-reported")
+            sx.require(list(rep["changed_name_of_service"][1]) ==
+                       [{"ecu_reset": "reset", "raw_renamed": "raw"}[svc]], "old-name-is-reported")
     else:
         where, prop = kind
         _require_only(sx, rep, changed=[svc])
